@@ -737,6 +737,9 @@ public:
       const Traits& tr = cfgs[p.config].tr;
       if (c18 && !tr.hp_like) continue;
       if (c17 && tr.lfrc) continue;
+      // lock_free_ref_count reclaims synchronously (no epochs, scans, thread lists or orphans): in a binary that also
+      // has deferred schemes half of its draws go to those instead
+      if (tr.lfrc && any17 && g.rng.chance(50)) continue;
       if (!c18 && tr.hp_like && !tr.dynamic && tr.K < 2) continue; // K=1 static pools are C18 material
       break;
     }
